@@ -248,6 +248,7 @@ class Env:
         if k in ("Subscribe", "Wait"):
             c = Consumer(len(self.cons))
             self.cons.append(c)
+            c.chans = list(op["chans"])
             self.tg.start_soon(self.consumer_task, c, op["chans"], op["f"], op.get("cap", 0), k == "Wait")
             await settle()
             if c.error:
@@ -310,9 +311,31 @@ class Env:
         if k == "Drop":
             # the owner must be collectable although its signals were bound (and maybe subscribed)
             i = op["i"]
+            cls = type(self.insts[i])
             self.insts[i] = None
             gc.collect()
-            return {"k": "Dropped", "collected": self.refs[i]() is None}
+            collected = self.refs[i]() is None
+            # new instances (one of them very likely at the address of the dead one) have bound signals of
+            # their own: none of the channels seen so far, and their events name them as source
+            stale = False
+            if collected and cls is not OwnerC:
+                fresh = []
+                for _ in range(60):
+                    try:
+                        o = cls(1) if cls is OwnerV else cls()
+                    except TypeError:
+                        break
+                    fresh.append(o)
+                    for a in range(3):
+                        name = attr_name(self.classes[i], a) if a in owner_attrs(self.classes[i]) else None
+                        if name is None:
+                            continue
+                        sig = getattr(o, name)
+                        if any(sig is old for old in self.chans):
+                            stale = True
+                del fresh
+                gc.collect()
+            return {"k": "Dropped", "collected": collected, "stale": stale}
         raise AssertionError(k)
 
     # ---------- generation
@@ -355,7 +378,13 @@ class Env:
             return {"op": "Leave", "sid": r.choice(active).sid}
         if 0.92 <= k < 0.95:
             return {"op": "ClassUse", "a": r.randrange(3), "how": r.choice(["HDispatch", "HStream", "HWait"])}
-        quiet = [i for i in live if i not in self.dispatched]   # events hold their source strongly
+        # events hold their source strongly: an owner whose events may still sit in the queue or the frame of a
+        # LIVE listener is not expected to go away; once every listener of its channels has left, nothing of
+        # them is left behind (unread events included)
+        def listeners_gone(i):
+            chs = {c for c, (j, a) in enumerate(self.chan_owner) if j == i}
+            return all(c.state == "done" for c in self.cons if chs & set(getattr(c, "chans", ())))
+        quiet = [i for i in live if i not in self.dispatched or listeners_gone(i)]
         if k < 0.97 and len(live) > 1 and quiet:
             i = r.choice(quiet)
             self.dropped.add(i)
